@@ -206,6 +206,28 @@ def _check_eval(ctx, rep, fo: Folder, f: Func, ev: ast.Call, thorough: bool):
         return
     var = free[0]
     vals = guard_values(ctx, fo, f, ev, var)
+    if vals is None and f.name.startswith("_") and not f.name.startswith("__") and f.cls is None:
+        # a private module-level helper: the guard may sit at its call sites (every one of them must have it)
+        sites = []
+        for g in f.module.funcs.values():
+            for g2 in [g] + list(g.nested.values()):
+                for n in own_nodes(g2.node):
+                    if isinstance(n, ast.Call) and isinstance(n.func, ast.Name) and n.func.id == f.name:
+                        sites.append((g2, n))
+        union, all_guarded = [], bool(sites)
+        for g2, n in sites:
+            try:
+                b, errs = bind_call(n, f, False)
+            except Exception:
+                b, errs = {}, ["bind"]
+            a = b.get(var)
+            v = guard_values(ctx, fo, g2, n, a.id) if isinstance(a, ast.Name) and not errs else None
+            if v is None:
+                all_guarded = False
+                break
+            union += [x for x in v if x not in union]
+        if all_guarded:
+            vals = union
     if vals is None:
         rep.violation("Y2", f, con, "this eval is not dominated by any catalogue membership test on '%s': an uncatalogued name is looked up "
                                     "as a function name (and whatever exists is called) instead of raising" % var, node=ev)
